@@ -456,6 +456,8 @@ def main(tier):
     check_codelen_end(rep, mod)
     import asmlin, c19
     asmlin.check(rep, 'INFLATE', 6, c19.field_offsets('struct inflate_state', ['next_in', 'avail_in', 'next_out', 'avail_out', 'total_out']), r'^decode_huffman_code_block_stateless_0\d$')
+    import siblings, fieldinit
+    siblings.check(rep, 'INFLATE', mod, {'decode_huffman_code_block_stateless_base': r'^decode_huffman_code_block_stateless_0\d$'}, sorted(fieldinit.struct_fields('inflate_state'), key=lambda x: x[1]), {}, 2)
     asmlin.check_state_siblings(rep, 'INFLATE', mod, {'decode_huffman_code_block_stateless_base': r'^decode_huffman_code_block_stateless_0\d$'},
                                 c19.field_offsets('struct inflate_state', ['block_state'])['block_state'], {}, 2)
     return rep.finish()
